@@ -7,3 +7,8 @@ claim("C16", "static analysis: linear-form range arithmetic + guard dominance (S
   "Decides for every path and every integer input the server's range rules as linear forms (start = First, count ≤ min(Limit,256), end ≤ Pending−1, no unsigned wrap), the header/power-table serving guards, the client's sequence/limit/decode guards before delivery, and the poller's validate-then-store and advance-to-validated-output rules (C16.R1–R4). Structural necessary conditions; byte-for-byte equality of served certificates is not decided.",
   "Linear forms ignore integer width except for the separate no-wrap obligations; a field read twice without an intervening store is taken to be the same value; trusts go/types, go/ssa, checker/lin.go and checker/c16.go.",
   "DESIGN.md §4 C16")
+
+claim("C18", "static analysis: cache-role provenance, key/value binding, admission guard dominance (SCCP), lock and loop-shape rules on chainexchange",
+  "Decides on every path of chainexchange/pubsub.go which per-instance LRU each lookup/insertion/placeholder/promotion touches (by provenance from its getter), that discovered insertions depend on a WANTED miss, that every insertion binds key = Key(chain stored), that ValidationAccept is unreachable when any admission check fails, that pruning deletes only instances below the bound in both maps, that the instance maps are touched only under the mutex, and that prefix loops run the full range (C18.R1–R6). Necessary structural conditions; LRU retention under floods is runtime behaviour and is not decided.",
+  "Trusts hashicorp/golang-lru method contracts, go/types, go/ssa and checker/c18.go.",
+  "DESIGN.md §4 C18")
